@@ -265,8 +265,10 @@ func vC18Rel(sent, got, id string, remote bool) bool {
 	return true
 }
 
-// input class of the manifests sent (for known-finding matching): a block locator is the last token
-// of a line and the stream name on the next line contains "+A" (malformed: no file token follows)
+// input class of the manifests sent (for known-finding matching):
+//   loc_eol_plusA_stream  a block locator is the last token of a line and the stream name on the next
+//                         line contains "+A" (malformed: no file token follows)
+//   no_final_newline      a manifest does not end with a newline
 func vC18Shape(sent map[int]string) string {
 	for _, mt := range sent {
 		lines := strings.Split(mt, "\n")
@@ -277,6 +279,11 @@ func vC18Shape(sent map[int]string) string {
 			if len(toks) > 1 && vC18IsHex32(last) && len(last) > 32 && last[32] == '+' && strings.Contains(next, "+A") {
 				return "loc_eol_plusA_stream"
 			}
+		}
+	}
+	for _, mt := range sent {
+		if !strings.HasSuffix(mt, "\n") {
+			return "no_final_newline"
 		}
 	}
 	return "plain"
